@@ -50,10 +50,25 @@ pub fn write_list(
     Ok(())
 }
 
-pub struct DebugRepr<T: std::fmt::Debug>(pub T);
+/// Format a string as a JSON string literal
+pub struct JsonString<T: AsRef<str>>(pub T);
 
-impl<T: std::fmt::Debug> std::fmt::Display for DebugRepr<T> {
+impl<T: AsRef<str>> std::fmt::Display for JsonString<T> {
     fn fmt(&self, f: &mut std::fmt::Formatter<'_>) -> std::fmt::Result {
-        write!(f, "{:?}", self.0)
+        use std::fmt::Write;
+
+        f.write_char('"')?;
+        for c in self.0.as_ref().chars() {
+            match c {
+                '"' => f.write_str("\\\"")?,
+                '\\' => f.write_str("\\\\")?,
+                '\n' => f.write_str("\\n")?,
+                '\r' => f.write_str("\\r")?,
+                '\t' => f.write_str("\\t")?,
+                c if (c as u32) < 0x20 => write!(f, "\\u{:04x}", c as u32)?,
+                c => f.write_char(c)?,
+            }
+        }
+        f.write_char('"')
     }
 }
